@@ -84,6 +84,8 @@ pub struct Doc {
     pub src: String,
     pub objs: Vec<ObjInfo>,
     pub bindings: Vec<Binding>,
+    /// path the document is parsed with (its directory module — custom components — is imported), if any
+    pub path: Option<String>,
 }
 
 /// description of a planted fault, in terms of the generator only
@@ -200,6 +202,8 @@ fn pseudo_rw(class: &str, name: &str) -> Option<bool> {
 pub struct DocOpts {
     /// `import qmluic.QtWidgets 6.2`: the translator warns "import version is ignored"
     pub import_version: bool,
+    /// parse the document as this file: the QML components of its directory module become known types
+    pub path: Option<&'static str>,
 }
 
 impl DocOpts {
@@ -289,7 +293,30 @@ impl Doc {
         for f in faults.iter().filter(|f| f.unknown_type) {
             objs[f.obj].resolves = false;
         }
-        Doc { src, objs, bindings }
+        // ids of objects that vanish with an unresolved ancestor are no longer defined: a constant reference to one of
+        // them (`buddy: inner`) is rejected while the code maps are built
+        let mut vanished: Vec<String> = vec![];
+        for i in 0..objs.len() {
+            let mut cur = Some(i);
+            let mut gone = false;
+            while let Some(c) = cur {
+                if !objs[c].resolves {
+                    gone = true;
+                }
+                cur = objs[c].parent;
+            }
+            if gone {
+                if let Some(n) = &objs[i].name {
+                    vanished.push(n.clone());
+                }
+            }
+        }
+        for b in &mut bindings {
+            if b.lhs == "buddy" && vanished.contains(&b.rhs) {
+                b.spec.enters = false;
+            }
+        }
+        Doc { src, objs, bindings, path: opts.path.map(|p| p.to_owned()) }
     }
 
     pub fn children_of(&self, oi: usize) -> Vec<usize> {
@@ -493,7 +520,11 @@ impl Doc {
                 list(vec![num(b.id), num(b.obj), st(b.lhs.clone()), num(b.range.0), num(b.range.1), num(self.entry_id(b)), num(tid)])
             })
             .collect();
-        node("passes", vec![atom(mode.name()), self.obj_sexp(0), node("src", vec![st(self.src.clone())]), node("objs", objs), node("binds", binds)])
+        let mut args = vec![atom(mode.name()), self.obj_sexp(0), node("src", vec![st(self.src.clone())]), node("objs", objs), node("binds", binds)];
+        if let Some(p) = &self.path {
+            args.push(node("path", vec![st(p.clone())]));
+        }
+        node("passes", args)
     }
 }
 
@@ -712,11 +743,16 @@ pub type Flags = HashMap<(String, Option<String>, String), bool>;
 /// In-process translation which also records what the library's own `Diagnostics::has_error()` says (the predicate
 /// `generate_ui_file` uses to decide whether outputs are written); `Translation::has_error()` is the harness' own count.
 pub fn translate_checked(tm: &TypeMap, src: &str, mode: Mode) -> (Translation, bool) {
+    translate_checked_at(tm, src, mode, None)
+}
+
+/// … parsed as the file `path` (nothing is read from the file system: the directory module must be in the type map)
+pub fn translate_checked_at(tm: &TypeMap, src: &str, mode: Mode, path: Option<&str>) -> (Translation, bool) {
     use qmluic::diagnostic::{DiagnosticKind, Diagnostics};
     use qmluic::qmldoc::UiDocument;
     use qmluic::qtname::FileNameRules;
     use qmluic::uigen::{self, BuildContext, XmlWriter};
-    let doc = UiDocument::parse(src, "MyType", None);
+    let doc = UiDocument::parse(src, "MyType", path.map(camino::Utf8PathBuf::from));
     let mut t = Translation::default();
     if doc.has_syntax_error() {
         t.syntax_errors = doc.collect_syntax_errors().len().max(1);
@@ -766,6 +802,10 @@ pub fn translate_with_flags(tm: &TypeMap, src: &str, mode: Mode) -> (Translation
 }
 
 pub fn translate_with_flags_checked(tm: &TypeMap, src: &str, mode: Mode) -> (Translation, Flags, bool) {
+    translate_with_flags_checked_at(tm, src, mode, None)
+}
+
+pub fn translate_with_flags_checked_at(tm: &TypeMap, src: &str, mode: Mode, path: Option<&str>) -> (Translation, Flags, bool) {
     use std::cell::RefCell;
     use std::rc::Rc;
     let flags: Rc<RefCell<Flags>> = Rc::new(RefCell::new(HashMap::new()));
@@ -775,7 +815,7 @@ pub fn translate_with_flags_checked(tm: &TypeMap, src: &str, mode: Mode) -> (Tra
             f2.borrow_mut().insert((ev.object_name.to_owned(), ev.attached_class.clone(), ev.path.clone()), ev.evaluated_constant);
         }
     }));
-    let t = std::panic::catch_unwind(std::panic::AssertUnwindSafe(|| translate_checked(tm, src, mode)));
+    let t = std::panic::catch_unwind(std::panic::AssertUnwindSafe(|| translate_checked_at(tm, src, mode, path)));
     qmluic::uigen::verif_hook::clear_observer();
     let out = flags.borrow().clone();
     match t {
@@ -932,7 +972,8 @@ pub fn real_answer(tm: &TypeMap, req: &Sexp) -> Sexp {
         _ => Mode::Omit,
     };
     let t = decode_tables(&args[2..]);
-    let (tr, flags, lib_has_error) = translate_with_flags_checked(tm, &t.src, mode);
+    let path = args.iter().find_map(|a| a.as_node().filter(|(t, _)| *t == "path").and_then(|(_, xs)| xs[0].as_str().map(|s| s.to_owned())));
+    let (tr, flags, lib_has_error) = translate_with_flags_checked_at(tm, &t.src, mode, path.as_deref());
     if tr.syntax_errors > 0 {
         return node("syntax-error", vec![]);
     }
@@ -957,6 +998,7 @@ pub fn real_answer(tm: &TypeMap, req: &Sexp) -> Sexp {
             })
             .collect(),
         bindings: vec![],
+        path: None,
     };
     let diag_subjects: BTreeSet<usize> = tr.diags.iter().filter(|d| d.is_error).map(|d| subject(&t, message_class(&d.message), d.start, d.end)).collect();
     let mut embedded = BTreeSet::new();
